@@ -3,12 +3,12 @@
 /* _parseString, loop 1: the token loop.
  *  - cursor monotone and inside the text (this is what J2 violates: `_pos += 4` without a bounds check)
  *  - the decoded string is shorter than the text read so far (the exact per-token relation "appends no more than it consumes" is
- *    clause S0d of the step proof; the relational form `str.n <= _pos - entry` costs 477 s here, this form 28 s) and never exceeds
- *    the limit by more than one token (4 bytes = longest UTF-8 sequence): the limit is checked before every token
+ *    clause S0d of the step proof; the relational form `str.n <= _pos - entry` costs 477 s here, this form 28 s);
+ *    the length limit is a per-token matter and lives in the step proof (S0f: no growth once the limit is exceeded, S0d: a token
+ *    appends at most 4 bytes => by induction over the iterations the string never exceeds the limit by more than 4 bytes)
  *  - variant: the unread rest of the text                                                                                      */
 #define IORA_LOOP_JsonParser_parseString_1 IORA_LC( \
   __CPROVER_assigns(self->_pos, self->_error, str.n, str.gk) \
   __CPROVER_loop_invariant(__CPROVER_loop_entry(self->_pos) <= self->_pos && self->_pos <= self->_text.n) \
   __CPROVER_loop_invariant(str.n <= self->_pos) \
-  __CPROVER_loop_invariant(str.n <= self->_limits.stringLengthMax || str.n - self->_limits.stringLengthMax <= 4) \
   __CPROVER_decreases(self->_text.n - self->_pos))
